@@ -168,6 +168,7 @@ class Worker:
         with warnings.catch_warnings():
             warnings.simplefilter("ignore")
             tm = self.new_manager(spec["live"])
+            self.assigned_bad = False          # did the case itself assign an order array that is no permutation?
             for ts in spec["triggers"]:
                 t = tm.add_trigger(ts["name"])
                 for os_ in ts.get("conditions", []):
@@ -175,13 +176,16 @@ class Worker:
                 for os_ in ts.get("effects", []):
                     self.make_obj(t, "effect", os_)
                 if ts.get("condition_order") is not None:
+                    self.assigned_bad |= not is_perm(ts["condition_order"], len(t.conditions))
                     t.condition_order = list(ts["condition_order"])
                 if ts.get("effect_order") is not None:
+                    self.assigned_bad |= not is_perm(ts["effect_order"], len(t.effects))
                     t.effect_order = list(ts["effect_order"])
             for vid, name in spec.get("variables", []):
                 tm.add_variable(name, vid)
             for op in spec.get("ops", []):
                 if op[0] == "setorder":
+                    self.assigned_bad |= not is_perm(op[1], len(tm.triggers))
                     tm.trigger_display_order = list(op[1])
                 elif op[0] == "copy":
                     tm.copy_trigger(op[1], append_after_source=bool(op[2]))
@@ -189,6 +193,12 @@ class Worker:
                     tm.remove_trigger(op[1])
                 elif op[0] == "move":
                     tm.move_triggers(list(op[1]), op[2])
+                elif op[0] == "rmeff":           # removals AFTER a custom display order: the order arrays shrink
+                    tm.triggers[op[1]].remove_effect(effect_index=op[2])
+                elif op[0] == "rmcond":
+                    tm.triggers[op[1]].remove_condition(condition_index=op[2])
+                elif op[0] == "deltrig":
+                    del tm.triggers[op[1]]
                 elif op[0] == "settrig":         # re-point an effect after the structural operations
                     tm.triggers[op[1]].effects[op[2]].trigger_id = op[3]
         return tm
@@ -248,6 +258,7 @@ class Worker:
         lines = ["mclear", "world live=%d units=%s" % (1 if live else 0, ilist(self.unit_ids if live else []))]
         in_dom = True
         sendable = True
+        self.perms_ok = True              # the order arrays, as the library hands them out, are permutations
         n = len(tm.triggers)
         for t in tm.triggers:
             if not isinstance(t.name, str):
@@ -272,13 +283,13 @@ class Worker:
                 sendable = False
             else:
                 lines.append("torder c=%s e=%s" % (ilist(co), ilist(eo)))
-            in_dom = in_dom and is_perm(co, len(t.conditions)) and is_perm(eo, len(t.effects))
+            self.perms_ok = self.perms_ok and is_perm(co, len(t.conditions)) and is_perm(eo, len(t.effects))
         order = list(tm.trigger_display_order)
         if not all(isinstance(x, int) for x in order):
             sendable = False
         else:
             lines.append("morder " + ilist(order))
-        in_dom = in_dom and is_perm(order, n)
+        self.perms_ok = self.perms_ok and is_perm(order, n)
         vs = [(v.variable_id, v.name) for v in tm.variables]
         if all(isinstance(i, int) and isinstance(nm, str) for i, nm in vs):
             lines.append("mvars " + (",".join("%d:%s" % (i, hx(nm)) for i, nm in vs) if vs else "-"))
@@ -498,6 +509,10 @@ class Worker:
             self.R.case(tags=("state-unreadable",))
             return
         sendable, dom = r
+        # order arrays that are no permutations are outside the domain only when the case ASSIGNED such an array; when
+        # every assigned order was a permutation and the rest was done by the library (add / remove / copy / move), the
+        # state is reachable through the API and the property speaks about it
+        dom = dom and (self.perms_ok or not self.assigned_bad)
         n = len(tm.triggers)
         obs = {}
         calls = [("summary", tm.get_summary_as_string), ("content", tm.get_content_as_string), ("str", lambda: str(tm))]
@@ -537,6 +552,16 @@ class Worker:
         if not dom:
             return
         order = list(tm.trigger_display_order)
+        if not is_perm(order, n):
+            # reached only when every assigned order was a permutation: the library itself lost the permutation
+            sig = {"cause": "display-order-not-a-permutation", "level": "manager"}
+            k = json.dumps(sig, sort_keys=True)
+            if k not in self.seen_sig:
+                self.seen_sig.add(k)
+                self.R.violation(sig, f"version {self.version}: after API operations with permutations only, trigger_display_order is {order} "
+                                      f"for {n} triggers: the listing cannot show every trigger exactly once ({[x[0] for x in raised]} raised)",
+                                 {"version": self.version, "manager": spec})
+            return
         want = [(tm.triggers[i].name, i, d) for d, i in enumerate(order)]
         # oracle 1: nothing raises (reporting re-uses the live manager, so everything is read before)
         if raised:
@@ -761,6 +786,17 @@ class Worker:
                 ops.append(["remove", rng.randrange(m)]); m -= 1
             elif m > 1:
                 ops.append(["move", [rng.randrange(m)], rng.randrange(m)])
+        # removals of components / list entries after the custom orders were set (only while the trigger list is as built)
+        if not any(o[0] in ("copy", "remove", "move") for o in ops):
+            for i, t in enumerate(trigs):
+                ne, nc = len(t["effects"]), len(t["conditions"])
+                for _ in range(rng.choice([0, 0, 1, 2])):
+                    if ne > 1 and rng.random() < 0.6:
+                        ops.append(["rmeff", i, rng.randrange(ne)]); ne -= 1
+                    elif nc > 1:
+                        ops.append(["rmcond", i, rng.randrange(nc)]); nc -= 1
+            if m > 1 and rng.random() < 0.25:
+                ops.append(["deltrig", rng.randrange(m)]); m -= 1
         # states outside the listing invariant (correspondence only)
         tags = []
         if rng.random() < 0.05 and m > 0:
